@@ -22,6 +22,11 @@ const MaxImportRecursionDepth = 10
 
 var namespaceNameRegex = regexp.MustCompile(`^[A-Z][a-zA-Z0-9]*$`)
 
+// IsValidNamespaceName reports whether name can be the 'namespace' of a package.
+func IsValidNamespaceName(name string) bool {
+	return namespaceNameRegex.MatchString(name)
+}
+
 // The name that generated code gives to the version of the model itself,
 // next to the labels of its previous versions.
 const CurrentVersionLabel = "Current"
